@@ -145,7 +145,7 @@ def build_dataset(tag, presence, sym, ego_rots, ann_rots, with_camera, with_visi
                                      "width": 100, "height": 100})
     anns = {}
     for i in range(n_inst):
-        cat = choose(f"{tag}inst{i}_category", CATEGORIES) if (sym and sym_tags and i == 0) else CATEGORIES[(i + len(tag)) % len(CATEGORIES)]
+        cat = choose(f"{tag}inst{i}_category", CATEGORIES) if (sym and sym_tags and (i == 0 or sym_tags == 2)) else CATEGORIES[(i + len(tag)) % len(CATEGORIES)]
         T["instance"].append({"token": f"inst{i}", "category_token": f"cat_{cat}", "nbr_annotations": sum(presence[i]),
                               "first_annotation_token": "", "last_annotation_token": ""})
         prev = ""
@@ -158,7 +158,7 @@ def build_dataset(tag, presence, sym, ego_rots, ann_rots, with_camera, with_visi
             rot = ann_rots[(i + k) % len(ann_rots)]
             npts = integer(f"{tag}a{i}_{k}_pts", 0, 100000) if sym else 7 * i + k
             first = not any((i2, k2) in anns for i2 in range(n_inst) for k2 in range(n_samp))
-            level = (choose(f"{tag}a{i}_{k}_vis", LEVELS) if (sym and sym_tags and first) else LEVELS[(i + k) % len(LEVELS)]) \
+            level = (choose(f"{tag}a{i}_{k}_vis", LEVELS) if (sym and sym_tags and (first or sym_tags == 2)) else LEVELS[(i + k) % len(LEVELS)]) \
                 if with_visibility else None
             attrs = [ATTRS[(i + k) % 2]] if (i + k) % 3 else []
             rec = {"token": tok, "sample_token": f"sample{k}", "instance_token": f"inst{i}", "translation": list(pos),
@@ -259,9 +259,10 @@ PRESENCE = {
 
 
 def frames_reproduce_tables(presence, frame, task, ego_rot, ann_rot, with_camera=False, with_visibility=True, merge=False,
-                            spacing_us=None):
+                            spacing_us=None, tags=1):
     nusc, spec = build_dataset("d0_", PRESENCE[presence], True, [ego_rot, "yaw_neg"], [ann_rot, "yaw90"], with_camera,
-                               with_visibility, 500000 if task == "tracking" and spacing_us is None else spacing_us)
+                               with_visibility, 500000 if task == "tracking" and spacing_us is None else spacing_us,
+                               sym_tags=tags)
     conv = LabelConverter(task, merge, "autoware")
     fid = FrameID.MAP if frame == "map" else FrameID.BASE_LINK
     with Env({"d0_": nusc}):
@@ -279,13 +280,32 @@ def several_datasets(frame):
     conv = LabelConverter("detection", False, "autoware")
     fid = FrameID.MAP if frame == "map" else FrameID.BASE_LINK
     with Env({"d0_": n0, "d1_": n1}):
-        frames = DS.load_all_datasets(["d0_", "d1_"], EvaluationTask.DETECTION, conv, fid)
-    parts = {"frames_add_up": len(frames) == 3}
-    if len(frames) == 3:
+        frames = DS.load_all_datasets(["d0_", "d1_", "d0_"], EvaluationTask.DETECTION, conv, fid)
+    parts = {"frames_add_up": len(frames) == 5}
+    if len(frames) == 5:
         oracle = LabelConverter("detection", False, "autoware")
         parts.update({f"first_{k}": v for k, v in _check_frames(frames, s0, frame, "detection", oracle, 0).items()})
         parts.update({f"second_{k}": v for k, v in _check_frames(frames, s1, frame, "detection", oracle, 2).items()})
+        parts.update({f"first_again_{k}": v for k, v in _check_frames(frames, s0, frame, "detection", oracle, 3).items()})
     return Out(parts=parts, obs={"frames": len(frames)})
+
+
+def reload_other_frame(presence, task, ego_rot, ann_rot):
+    """the same tables are loaded in the ego frame, then in the map frame, then in the ego frame again (one devkit object,
+    one label converter): each load reproduces the tables, whatever was loaded before."""
+    nusc, spec = build_dataset("d0_", PRESENCE[presence], True, [ego_rot, "yaw90"], [ann_rot, "tilt"], True, True,
+                               500000 if task == "tracking" else None, sym_tags=False)
+    conv = LabelConverter(task, False, "autoware")
+    oracle = LabelConverter(task, False, "autoware")
+    parts = {}
+    with Env({"d0_": nusc}):
+        for step, frame in enumerate(("base_link", "map", "base_link")):
+            fid = FrameID.MAP if frame == "map" else FrameID.BASE_LINK
+            frames = DS.load_all_datasets(["d0_"], EvaluationTask.from_value(task), conv, fid)
+            parts[f"load{step}_one_frame_per_sample"] = len(frames) == spec["n_samp"]
+            if len(frames) == spec["n_samp"]:
+                parts.update({f"load{step}_{k}": v for k, v in _check_frames(frames, spec, frame, task, oracle).items()})
+    return Out(parts=parts, obs={})
 
 
 def obligations(pid, tier):
@@ -303,7 +323,10 @@ def obligations(pid, tier):
     if not quick:
         for frame in ("base_link", "map"):
             for er in ROTS:
-                cases.append(dict(presence="1x1", frame=frame, task="detection", ego_rot=er, ann_rot="general"))
+                for ar in ROTS:
+                    cases.append(dict(presence="1x1", frame=frame, task="detection", ego_rot=er, ann_rot=ar))
+            cases += [dict(presence="2x1", frame=frame, task="sensing", ego_rot="general", ann_rot="tilt", tags=2),
+                      dict(presence="1x2", frame=frame, task="tracking", ego_rot="tilt", ann_rot="general", tags=2)]
             cases += [dict(presence="3x2", frame=frame, task="tracking", ego_rot="general", ann_rot="tilt", with_camera=True),
                       dict(presence="1x3", frame=frame, task="tracking", ego_rot="tilt", ann_rot="yaw_neg", merge=True),
                       dict(presence="2x3_gap", frame=frame, task="detection", ego_rot="yaw_3_4_5", ann_rot="general")]
@@ -313,7 +336,12 @@ def obligations(pid, tier):
                         "object per annotation with instance id, label, attributes, size, point count, visibility; map / "
                         "ego pose; ego->map transform; tracking history; sensor transforms"),
         Obligation("several_datasets", several_datasets, cases=[dict(frame="base_link"), dict(frame="map")], extras=_extras,
-                   desc="two datasets loaded in sequence keep their order and contents"),
+                   desc="dataset paths [A, B, A] loaded in one call keep their order and contents"),
+        Obligation("reload_other_frame", reload_other_frame, extras=_extras,
+                   cases=[dict(presence="2x2_appear", task="detection", ego_rot="general", ann_rot="yaw_3_4_5"),
+                          dict(presence="1x3", task="tracking", ego_rot="yaw_3_4_5", ann_rot="general")]
+                   + ([] if quick else [dict(presence="2x3_gap", task="tracking", ego_rot="tilt", ann_rot="yaw_neg")]),
+                   desc="one devkit object loaded in the ego frame, the map frame and the ego frame again"),
     ]
 
 
@@ -333,8 +361,9 @@ def meta(pid):
                             "label table; visibility symbolic over 6 levels/aliases or table absent; ego / annotation "
                             "rotations from 7 exact rotations (yaws and two general 3-D ones); map and ego frame; detection, "
                             "sensing, tracking (fixed 0.5 s spacing); merge on/off; optional camera sensor with symbolic "
-                            "mounting position; two datasets in sequence",
-                   "thorough": "all 7 ego rotations, 3 instances, 3-sample tracking histories"},
+                            "mounting position; dataset paths [A, B, A] in one call; the same tables loaded ego / map / ego",
+                   "thorough": "all 49 (ego, annotation) rotation pairs, 3 instances, 3-sample tracking histories, every "
+                               "instance's category and every annotation's visibility symbolic in 2-annotation datasets"},
         "outside": ["reading and parsing the JSON table files (the devkit constructor) and raw sensor data (load_raw_data)",
                     "2-D datasets (NuImages object annotations)", "rotations outside the exact set", "velocity values "
                     "(computed on the way, not part of the statement)", "tracking with irregular sample spacing",
